@@ -38,7 +38,10 @@ pub struct InfoLog {
 
 impl InfoLog {
     fn push(&self, e: InfoEv) {
-        let t = self.start.map(|s| tokio::time::Instant::now().duration_since(s).as_millis() as u64).unwrap_or(0);
+        let t = self
+            .start
+            .map(|s| tokio::time::Instant::now().duration_since(s).as_millis() as u64)
+            .unwrap_or(0);
         self.log.lock().unwrap().push((t, e));
     }
     pub fn take(&self) -> Vec<(u64, InfoEv)> {
@@ -48,13 +51,24 @@ impl InfoLog {
 
 impl AssociationInformation for InfoLog {
     fn task_start(&mut self, task_type: TaskType, fc: FunctionCode, seq: Sequence) {
-        self.push(InfoEv::TaskStart(format!("{:?}", task_type), fc.as_u8(), seq.value()));
+        self.push(InfoEv::TaskStart(
+            format!("{:?}", task_type),
+            fc.as_u8(),
+            seq.value(),
+        ));
     }
     fn task_success(&mut self, task_type: TaskType, fc: FunctionCode, seq: Sequence) {
-        self.push(InfoEv::TaskSuccess(format!("{:?}", task_type), fc.as_u8(), seq.value()));
+        self.push(InfoEv::TaskSuccess(
+            format!("{:?}", task_type),
+            fc.as_u8(),
+            seq.value(),
+        ));
     }
     fn task_fail(&mut self, task_type: TaskType, error: TaskError) {
-        self.push(InfoEv::TaskFail(format!("{:?}", task_type), format!("{:?}", error)));
+        self.push(InfoEv::TaskFail(
+            format!("{:?}", task_type),
+            format!("{:?}", error),
+        ));
     }
     fn unsolicited_response(&mut self, is_duplicate: bool, seq: Sequence) {
         self.push(InfoEv::Unsolicited(is_duplicate, seq.value()));
@@ -71,7 +85,9 @@ pub struct Clock {
 impl AssociationHandler for Clock {
     fn get_current_time(&self) -> Option<Timestamp> {
         let off = (*self.offset.lock().unwrap())?;
-        let now = tokio::time::Instant::now().duration_since(self.start).as_millis() as u64;
+        let now = tokio::time::Instant::now()
+            .duration_since(self.start)
+            .as_millis() as u64;
         Some(Timestamp::new(off.wrapping_add(now)))
     }
 }
@@ -102,9 +118,21 @@ impl Pending {
 #[derive(Clone, Debug, PartialEq)]
 pub enum MTx {
     /// application fragment the master sent to link address `dst`
-    Fragment { t: u64, dst: u16, bytes: Vec<u8> },
-    Link { t: u64, ctrl: u8, dst: u16, src: u16 },
-    Garbage { t: u64, why: String },
+    Fragment {
+        t: u64,
+        dst: u16,
+        bytes: Vec<u8>,
+    },
+    Link {
+        t: u64,
+        ctrl: u8,
+        dst: u16,
+        src: u16,
+    },
+    Garbage {
+        t: u64,
+        why: String,
+    },
 }
 
 pub struct MasterRig {
@@ -129,7 +157,17 @@ impl MasterRig {
         cfg.decode_level = super::decode_level(decode[0], decode[1], decode[2], decode[3]);
         cfg.tx_buffer_size = BufferSize::new(tx_size.max(249) as usize).unwrap();
         let (tx, rx) = crate::util::channel::request_channel();
-        let task = MasterTask::new(Enabled::Yes, LinkModes::stream(if discard { LinkErrorMode::Discard } else { LinkErrorMode::Close }), ParseOptions::default(), cfg, rx);
+        let task = MasterTask::new(
+            Enabled::Yes,
+            LinkModes::stream(if discard {
+                LinkErrorMode::Discard
+            } else {
+                LinkErrorMode::Close
+            }),
+            ParseOptions::default(),
+            cfg,
+            rx,
+        );
         let channel = MasterChannel::new(tx, MasterChannelType::Stream);
         let (conns, mut conn_rx) = tokio::sync::mpsc::unbounded_channel::<PhysLayer>();
         let polls = Polls::default();
@@ -162,24 +200,73 @@ impl MasterRig {
             polls.clone(),
         );
         let task = tokio::spawn(fut);
-        MasterRig { channel, polls, assocs: BTreeMap::new(), peer: None, conns, task: Some(task), partial: None, start, task_failure: None, requeue: vec![] }
+        MasterRig {
+            channel,
+            polls,
+            assocs: BTreeMap::new(),
+            peer: None,
+            conns,
+            task: Some(task),
+            partial: None,
+            start,
+            task_failure: None,
+            requeue: vec![],
+        }
     }
 
     pub fn now_ms(&self) -> u64 {
-        tokio::time::Instant::now().duration_since(self.start).as_millis() as u64
+        tokio::time::Instant::now()
+            .duration_since(self.start)
+            .as_millis() as u64
     }
 
-    pub async fn add_association(&mut self, addr: u16, config: AssociationConfig, clock_offset: Option<u64>) {
+    pub async fn add_association(
+        &mut self,
+        addr: u16,
+        config: AssociationConfig,
+        clock_offset: Option<u64>,
+    ) {
         let read = RecHandler::default();
-        let info = InfoLog { log: Default::default(), start: Some(self.start) };
-        let clock = Clock { offset: Arc::new(Mutex::new(clock_offset)), start: self.start };
+        let info = InfoLog {
+            log: Default::default(),
+            start: Some(self.start),
+        };
+        let clock = Clock {
+            offset: Arc::new(Mutex::new(clock_offset)),
+            start: self.start,
+        };
         let mut ch = self.channel.clone();
         let (r, i, c) = (read.clone(), info.clone(), clock.clone());
         let polls = self.polls.clone();
-        let jh = tokio::spawn(Counted::new(async move { ch.add_association(EndpointAddress::raw(addr), config, Box::new(r), Box::new(c), Box::new(i)).await }, polls));
+        let jh = tokio::spawn(Counted::new(
+            async move {
+                ch.add_association(
+                    EndpointAddress::raw(addr),
+                    config,
+                    Box::new(r),
+                    Box::new(c),
+                    Box::new(i),
+                )
+                .await
+            },
+            polls,
+        ));
         self.settle().await;
-        let handle = jh.await.expect("add_association task").expect("add_association");
-        self.assocs.insert(addr, Assoc { addr, handle, read, info, clock, tseq: 0 });
+        let handle = jh
+            .await
+            .expect("add_association task")
+            .expect("add_association");
+        self.assocs.insert(
+            addr,
+            Assoc {
+                addr,
+                handle,
+                read,
+                info,
+                clock,
+                tseq: 0,
+            },
+        );
     }
 
     /// hand the master a new connection
@@ -205,7 +292,11 @@ impl MasterRig {
     }
 
     pub fn session_alive(&self) -> bool {
-        self.peer.as_ref().and_then(|p| p.to_lib.as_ref()).map(|tx| !tx.is_closed()).unwrap_or(false)
+        self.peer
+            .as_ref()
+            .and_then(|p| p.to_lib.as_ref())
+            .map(|tx| !tx.is_closed())
+            .unwrap_or(false)
     }
 
     pub fn send_raw(&mut self, bytes: &[u8]) {
@@ -253,14 +344,18 @@ impl MasterRig {
                 match t.await {
                     Ok(()) => {
                         if self.task_failure.is_none() {
-                            self.task_failure = Some(Fail::new("task-ended", "the master task returned although it was never shut down"));
+                            self.task_failure = Some(Fail::new(
+                                "task-ended",
+                                "the master task returned although it was never shut down",
+                            ));
                         }
                     }
                     Err(e) => {
                         let text = engine::take_panic().unwrap_or_else(|| format!("panic@?: {e}"));
                         if self.task_failure.is_none() {
                             self.task_failure = Some(if text.contains("verif-spin") {
-                                Fail::new("spin", text.clone()).with_sig("spin: master task busy-loops without time advancing")
+                                Fail::new("spin", text.clone())
+                                    .with_sig("spin: master task busy-loops without time advancing")
                             } else {
                                 engine::panic_fail(&text)
                             });
@@ -281,32 +376,54 @@ impl MasterRig {
             None => vec![],
         };
         for (at, c) in chunks {
-            let t = at.map(|i| i.duration_since(start).as_millis() as u64).unwrap_or(now);
+            let t = at
+                .map(|i| i.duration_since(start).as_millis() as u64)
+                .unwrap_or(now);
             match rl::try_frame(&c) {
                 rl::TryFrame::Ok(f, n) if n == c.len() => {
                     if f.payload.is_empty() {
-                        out.push(MTx::Link { t, ctrl: f.ctrl, dst: f.dst, src: f.src });
+                        out.push(MTx::Link {
+                            t,
+                            ctrl: f.ctrl,
+                            dst: f.dst,
+                            src: f.src,
+                        });
                         continue;
                     }
                     if f.ctrl != 0xC4 || f.src != M_ADDR {
-                        out.push(MTx::Garbage { t, why: format!("data frame with control {:#04x} source {}", f.ctrl, f.src) });
+                        out.push(MTx::Garbage {
+                            t,
+                            why: format!(
+                                "data frame with control {:#04x} source {}",
+                                f.ctrl, f.src
+                            ),
+                        });
                         continue;
                     }
                     let seg = Segment::from_payload(f.src, &f.payload).unwrap();
                     match (&mut self.partial, seg.fir) {
                         (_, true) => {
                             if self.partial.is_some() {
-                                out.push(MTx::Garbage { t, why: "FIR segment while a fragment was being assembled".into() });
+                                out.push(MTx::Garbage {
+                                    t,
+                                    why: "FIR segment while a fragment was being assembled".into(),
+                                });
                             }
                             self.partial = Some((f.dst, seg.seq, seg.data.clone()));
                         }
                         (None, false) => {
-                            out.push(MTx::Garbage { t, why: "non-FIR segment with nothing to continue".into() });
+                            out.push(MTx::Garbage {
+                                t,
+                                why: "non-FIR segment with nothing to continue".into(),
+                            });
                             continue;
                         }
                         (Some((dst, seq, acc)), false) => {
                             if *dst != f.dst || seg.seq != (*seq + 1) & 0x3F {
-                                out.push(MTx::Garbage { t, why: "segment does not continue the previous one".into() });
+                                out.push(MTx::Garbage {
+                                    t,
+                                    why: "segment does not continue the previous one".into(),
+                                });
                                 self.partial = None;
                                 continue;
                             }
@@ -319,7 +436,13 @@ impl MasterRig {
                         out.push(MTx::Fragment { t, dst, bytes });
                     }
                 }
-                _ => out.push(MTx::Garbage { t, why: format!("a write of {} bytes is not exactly one valid link frame", c.len()) }),
+                _ => out.push(MTx::Garbage {
+                    t,
+                    why: format!(
+                        "a write of {} bytes is not exactly one valid link frame",
+                        c.len()
+                    ),
+                }),
             }
         }
         out
@@ -327,7 +450,10 @@ impl MasterRig {
 
     /// the application fragments only: (time, destination, parsed)
     pub fn take_requests(&mut self) -> Vec<(u64, u16, Fragment)> {
-        let mut out: Vec<(u64, u16, Fragment)> = std::mem::take(&mut self.requeue).into_iter().filter_map(|(t, dst, bytes)| Fragment::parse(&bytes).map(|f| (t, dst, f))).collect();
+        let mut out: Vec<(u64, u16, Fragment)> = std::mem::take(&mut self.requeue)
+            .into_iter()
+            .filter_map(|(t, dst, bytes)| Fragment::parse(&bytes).map(|f| (t, dst, f)))
+            .collect();
         out.extend(self.take_tx().into_iter().filter_map(|t| match t {
             MTx::Fragment { t, dst, bytes } => Fragment::parse(&bytes).map(|f| (t, dst, f)),
             _ => None,
@@ -341,14 +467,19 @@ impl MasterRig {
         F: std::future::Future<Output = T> + Send + 'static,
         T: std::fmt::Debug + Send + 'static,
     {
-        let p = Pending { name: name.to_string(), result: Default::default() };
+        let p = Pending {
+            name: name.to_string(),
+            result: Default::default(),
+        };
         let slot = p.result.clone();
         let start = self.start;
         let polls = self.polls.clone();
         tokio::spawn(Counted::new(
             async move {
                 let r = fut.await;
-                let t = tokio::time::Instant::now().duration_since(start).as_millis() as u64;
+                let t = tokio::time::Instant::now()
+                    .duration_since(start)
+                    .as_millis() as u64;
                 slot.lock().unwrap().push((t, format!("{:?}", r)));
             },
             polls,
@@ -360,6 +491,7 @@ impl MasterRig {
 pub fn assoc_config(response_timeout_ms: u64) -> AssociationConfig {
     let mut c = AssociationConfig::quiet();
     c.response_timeout = Timeout::from_millis(response_timeout_ms.max(1)).unwrap();
-    c.auto_tasks_retry_strategy = RetryStrategy::new(Duration::from_millis(100), Duration::from_millis(800));
+    c.auto_tasks_retry_strategy =
+        RetryStrategy::new(Duration::from_millis(100), Duration::from_millis(800));
     c
 }
